@@ -21,6 +21,10 @@
 (* MANT 5): every guard of the C code compares the same quantities.           *)
 (* One state per (site, chunk of operands); the state carries, per operand,   *)
 (* <<reference, fast-path result, path>>.                                     *)
+(* Float constants: a base set plus the boundary family BndFloatConsts (the   *)
+(* integral doubles around 2^SHIFT, 2^(2 SHIFT), 2^MANT, 2^(MANT+1),          *)
+(* 2^(LONG-1), both signs); case class RoundCollision / invariant             *)
+(* ExactCompare: int ==/!= float is exact where (double) int = constant.      *)
 EXTENDS Integers, Sequences, TLC, Json, FiniteSets
 
 CONSTANTS SHIFT, LONG, LLONG, CBITS, MANT, EMAX,
